@@ -28,7 +28,9 @@ Definition rp_of_raw (r : rp_rawnode) : rp_node := {| rp_key := rpr_key r; rp_id
 
 Record rp_query := { rpq_key : Z; rpq_is : option bool; rpq_with : option (bool * list Z) }.
 
-Record rp_case := { rpc_nodes : list rp_rawnode; rpc_hash : option string; rpc_k : Z;
+(* rpc_nodes = the AddNode calls on the pool under test, in order (re-adds included);
+   rpc_setidx = the SetIndex fields of its node objects, in pool order, when queried *)
+Record rp_case := { rpc_nodes : list rp_rawnode; rpc_setidx : list Z; rpc_hash : option string; rpc_k : Z;
                     rpc_scores : option (list (Z * Z)); rpc_queries : list rp_query }.
 
 Fixpoint rp_zins (x : Z) (l : list Z) : list Z :=
@@ -44,14 +46,14 @@ Definition rp_obs_scores (pool : list rp_node) (hash : option (list Z)) : option
 Definition rp_with_eqb (a b : bool * list Z) : bool :=
   Bool.eqb (fst a) (fst b) && list_eqb Z.eqb (snd a) (snd b).
 
-Definition rp_query_ok (k : Z) (pool : list rp_node) (hash : option (list Z)) (q : rp_query) : bool :=
-  option_eqb Bool.eqb (rp_is_block_sharder k pool hash (rpq_key q)) (rpq_is q) &&
+Definition rp_query_ok (idxs : list Z) (k : Z) (pool : list rp_node) (hash : option (list Z)) (q : rp_query) : bool :=
+  option_eqb Bool.eqb (rp_is_block_sharder_ix idxs k pool hash (rpq_key q)) (rpq_is q) &&
   option_eqb rp_with_eqb
-    (option_map (fun r => (fst r, rp_zsort (map rp_key (snd r)))) (rp_can_shard_with_replicators k pool hash (rpq_key q)))
+    (option_map (fun r => (fst r, rp_zsort (map rp_key (snd r)))) (rp_can_shard_with_replicators_ix idxs k pool hash (rpq_key q)))
     (rpq_with q).
 
 Definition rp_check (c : rp_case) : bool :=
   let pool := rp_build (map rp_of_raw (rpc_nodes c)) in
   let hash := option_map rp_hex_bytes (rpc_hash c) in
   option_eqb (list_eqb zz_eqb) (rp_obs_scores pool hash) (rpc_scores c) &&
-  forallb (rp_query_ok (rpc_k c) pool hash) (rpc_queries c).
+  forallb (rp_query_ok (rpc_setidx c) (rpc_k c) pool hash) (rpc_queries c).
